@@ -194,7 +194,7 @@ PROPS = {
     },
     "C05": {
         "modules": ["SxVerif.Props.C05"],
-        "components": ["fill"],
+        "components": ["fill", "iface"],
         "trusted_base": [
             "modelled, not verified: gopacket layers.{Ethernet,IPv4,TCP,UDP,ICMPv4,ARP}.SerializeTo, gopacket.Payload, SerializeLayers order, checksum / tcpipChecksum / pseudoheaderChecksum, Ethernet padding to 60 bytes, net.IP.To4 (Model/Fill.lean); validated byte for byte against the real fillers on every run, not proved",
             "math/rand draws are parameters of the model; their ranges are regenerated from the four Fill bodies by sxfacts (Generated/Fill.lean, theorem C05_draws); rand.Intn(n) returns a value in [0, n)",
@@ -274,7 +274,7 @@ PROPS = {
     },
     "C15": {
         "modules": ["SxVerif.Props.C15"],
-        "components": ["limiter"],
+        "components": ["limiter", "parse"],
         "trusted_base": [
             "modelled, not verified: go.uber.org/ratelimit v0.2.0 limiter_atomic.go (newAtomicBased, Take) as Model/Limiter.lean — one state update per Take as a function of the loaded state and the clock reading of the successful CAS iteration; time.Time/time.Duration as unbounded integers (ns since Go's zero time)",
             "Mathlib v4.33.0 (Finset.Icc cardinality, min'/max') for the order-free corollary C15_any_set only — checked by the same kernel",
